@@ -15,7 +15,7 @@ Definition k_origin := s2l "origin".
 Definition parse_client_data (O : oracles) (raw : bytes) : res client_data :=
   match o_json_loads O false raw with
   | JDecodeError => Err (Lib InvalidJSONStructure)
-  | JUnicodeError => Err (Py ValueError)
+  | JUnicodeError => Err (Lib InvalidJSONStructure)     (* `except ValueError` since the F10 fix *)
   | JOtherError => Err Unmodelled
   | JOk (JObj m) =>
       if negb (jhas m k_type) then Err (Lib InvalidJSONStructure)
